@@ -839,6 +839,69 @@ fn test_gemm_prepack() {
     })
 }
 
+// Test prepacked inputs combined with non-zero zero points. The zero points
+// are not known when the inputs are packed.
+#[test]
+fn test_gemm_u8i8_i32_prepack_zero_point() {
+    #[derive(Copy, Clone, Debug)]
+    struct Case {
+        m: usize,
+        n: usize,
+        k: usize,
+    }
+
+    let cases = [Case { m: 5, n: 7, k: 10 }, Case { m: 40, n: 70, k: 9 }];
+
+    cases.test_each(|&Case { m, n, k }| {
+        for gemm in all_gemms::<u8, i8, i32>() {
+            let mut lhs_rng = XorShiftRng::new(1234);
+            let mut rhs_rng = ReducedRangeRng::new(gemm.may_saturate(), 5678);
+
+            let a = NdTensor::<u8, 2>::rand([m, k], &mut lhs_rng);
+            let b = NdTensor::<i8, 2>::rand([k, n], &mut rhs_rng);
+
+            let a_zero_point: Vec<_> = (0..a.rows()).map(|x| x as u8 + 1).collect();
+            let b_zero_point: Vec<_> = (0..b.cols()).map(|x| x as i8 - 35).collect();
+            let opts = GemmOpts {
+                a_quant: Some(QuantParams {
+                    zero_point: &a_zero_point,
+                }),
+                b_quant: Some(QuantParams {
+                    zero_point: &b_zero_point,
+                }),
+                ..Default::default()
+            };
+            let expected = reference_matmul(a.view(), b.view(), Some(opts.clone()));
+
+            let packed_a = gemm.prepack_a(a.view());
+            let packed_b = gemm.prepack_b(b.view());
+
+            let inputs = [
+                (GemmInputA::Packed(&packed_a), GemmInputB::Unpacked(b.view())),
+                (GemmInputA::Unpacked(a.view()), GemmInputB::Packed(&packed_b)),
+                (GemmInputA::Packed(&packed_a), GemmInputB::Packed(&packed_b)),
+            ];
+            for (a_input, b_input) in inputs {
+                let mut result = NdTensor::<i32, 2>::zeros([m, n]);
+                gemm.gemm(
+                    result.data_mut().unwrap(),
+                    a_input,
+                    b_input,
+                    GemmOptions {
+                        alpha: opts.alpha,
+                        beta: opts.beta,
+                        bias: None,
+                        a_quant: opts.a_quant,
+                        b_quant: opts.b_quant,
+                    },
+                )
+                .unwrap();
+                expect_equal(&result, &expected).unwrap();
+            }
+        }
+    })
+}
+
 #[test]
 fn test_gemm_prepack_empty() {
     #[derive(Clone, Debug)]
